@@ -126,6 +126,10 @@ type answerClass interface {
 	AnswerClass(op []string, ans string) string
 }
 
+// failFast is implemented by components whose failing cases are expensive (each runs into a watchdog): the
+// run stops after that many failing cases. Only for components without known findings.
+type failFast interface{ FailFast() int }
+
 // runCases executes cases, writing ops.txt / impl.txt / stats.json into dir.
 func runCases(c Component, cases [][]string, seed uint64, tier, dir string) error {
 	if err := os.MkdirAll(dir, 0o755); err != nil {
@@ -174,6 +178,17 @@ func runCases(c Component, cases [][]string, seed uint64, tier, dir string) erro
 		}
 		for _, m := range ex.Oracle() {
 			st.OracleFailures = append(st.OracleFailures, OracleFailure{Case: ci, Ops: ops, Message: m})
+		}
+		if ff, ok := c.(failFast); ok {
+			failedCases := map[int]bool{}
+			for _, f := range st.OracleFailures {
+				failedCases[f.Case] = true
+			}
+			if len(failedCases) >= ff.FailFast() {
+				// enough failing cases to report and shrink: the remaining cases are not run
+				cases = cases[:ci+1]
+				break
+			}
 		}
 		if nt, key := ex.Signature(); nt {
 			distinct[key] = true
